@@ -12,3 +12,15 @@ func verifSendShard(args *RPCSendShardRequest) error {
 	}
 	return nil
 }
+
+// VerifSetNodeKeyValueHook, when set, is called at the start of
+// RPCSetNodeKeyValue, before routing: on the sending node with the request as
+// it was built, and again on the receiving node with the decoded request.
+var VerifSetNodeKeyValueHook func(c *ClusterNode, args *RPCSetNodeKeyValueRequest) error
+
+func verifSetNodeKeyValue(c *ClusterNode, args *RPCSetNodeKeyValueRequest) error {
+	if h := VerifSetNodeKeyValueHook; h != nil {
+		return h(c, args)
+	}
+	return nil
+}
